@@ -65,3 +65,42 @@ pub fn narrow_len(len: usize) -> u64 {
 pub fn narrow_sum(a: u8) -> usize {
     (a + 1) as usize
 }
+
+/// W4: an advisory quantity (size_hint) used as a length.
+pub fn trust_hint<I: Iterator<Item = bool>>(it: I) -> Vec<bool> {
+    let (lower, _) = it.size_hint();
+    let mut v = vec![false; lower];
+    for (i, b) in it.enumerate() {
+        v[i] = b;
+    }
+    v
+}
+
+/// W4: a branch on the capacity of a vector.
+pub fn by_capacity(v: &Vec<u64>, x: u64) -> u64 {
+    if v.capacity() > 4 { x } else { 0 }
+}
+
+/// W5: a shift by a width that can be the whole word.
+pub fn shift_by_width(w: usize) -> u64 {
+    let w = w.min(64);
+    (1u64 << w) - 1
+}
+
+/// W6: take_while on a borrowed iterator that is used again (the first item of every later group is lost).
+pub fn groups_below(v: &[usize], limits: &[usize]) -> Vec<Vec<usize>> {
+    let mut iter = v.iter().copied();
+    let mut out = Vec::new();
+    for &limit in limits {
+        out.push(iter.by_ref().take_while(|x| *x < limit).collect());
+    }
+    out
+}
+
+/// C14.R1c: io::Result used as an iterator (an Err yields nothing and is gone), and `.ok()` on an io::Result.
+pub fn load_all<R: Read>(r: &mut R, n: usize) -> Vec<[u8; 8]> {
+    (0..n).flat_map(|_| { let mut buf = [0u8; 8]; r.read_exact(&mut buf).map(|_| buf) }).collect()
+}
+pub fn write_quietly<W: Write>(w: &mut W) -> Option<()> {
+    w.write_all(b"x").ok()
+}
